@@ -200,14 +200,20 @@ def rule_waitloop(ctx, rep):
     for fl in ("memb", "mb", "qsbr"):
         F = FL[fl]
         m = ctx.mod(F.lib, "perfn")
-        for gname in ("wait_gp", "urcu_adaptative_busy_wait"):
-            g = m.fn(gname)
-            if g is None:
-                raise Broken("%s: %s vanished" % (fl, gname))
-            ws = waitloop.wait_sites(g)
-            if not ws:
-                rep.bad("C02.waitloop", "%s.%s" % (fl, gname), "%s no longer sleeps on a futex" % gname, [g.name])
-                continue
+        # every function of the flavor library that sleeps on a grace-period word (gp.futex, wait-node state), whatever its name
+        sleepers = []
+        for g_ in m.defined():
+            for w_ in waitloop.wait_sites(g_):
+                ap_ = waitloop.word_of(w_)
+                if ap_ is not None and pat.last_field(ap_) in ("urcu_gp.futex", "urcu_wait_node.state"):
+                    if g_ not in sleepers:
+                        sleepers.append(g_)
+        words = set(pat.last_field(waitloop.word_of(w_)) for g_ in sleepers for w_ in waitloop.wait_sites(g_) if waitloop.word_of(w_) is not None)
+        if words != {"urcu_gp.futex", "urcu_wait_node.state"}:
+            raise Broken("%s: sleepers on gp.futex / wait-node state not found (found %s)" % (fl, sorted(words)))
+        for g in sleepers:
+            gname = "urcu_adaptative_busy_wait" if g.name == "urcu_adaptative_busy_wait" else ("wait_gp" if any(pat.last_field(waitloop.word_of(w_)) == "urcu_gp.futex" for w_ in waitloop.wait_sites(g)) else g.name)
+            ws = [w_ for w_ in waitloop.wait_sites(g) if waitloop.word_of(w_) is not None and pat.last_field(waitloop.word_of(w_)) in ("urcu_gp.futex", "urcu_wait_node.state")]
             for k, w in enumerate(ws):
                 n += 1
                 waitloop.check(rep, "C02.waitloop", "%s.%s.site%d" % (fl, gname, k), g, w)
@@ -260,6 +266,9 @@ def rule_node(ctx, rep):
                   "WAKEUP store is not a release store", [s.where() for s in st])
         rep.must_pass("C02.node", fl + ".wake_up.WAKEUP≺wake", wk, [wk.entry()], wakes, lambda i: i in st, include_start=True, what="state=WAKEUP is stored before the futex wake")
         rep.must_pass("C02.node", fl + ".wake_up.WAKEUP≺TEARDOWN", wk, [wk.entry()], td, lambda i: i in st, include_start=True, what="state=WAKEUP precedes TEARDOWN")
+        # every return grants TEARDOWN (the waiter - awake or not - returns from busy_wait only once it sees that bit)
+        rep.must_pass("C02.node", fl + ".wake_up.every-return-TEARDOWN", wk, [wk.entry()], None, lambda i: i in td, to_exit=True, include_start=True,
+                      what="every returning path of urcu_adaptative_wake_up sets TEARDOWN (a waiter already RUNNING still waits for it)")
         # T14: nothing touches the node after TEARDOWN was set (the waiter may free its stack frame)
         after = wk.reachable_set(td)
         touch = [i for i in wk.all_insts() if i.id in after and i.op in ("load", "store", "rmw", "cmpxchg", "asm", "call") and _uses_arg0(wk, i)]
